@@ -9,7 +9,9 @@ let mem_of_hex s : mem =
   let n = if n < 4 then 0 else n in                                  (* Face::Table drops tables shorter than 4 bytes *)
   let a = Array.init n (fun i -> n_of_int (int_of_string ("0x" ^ String.sub s (2 * i) 2))) in
   { m_len = n_of_int n; m_rd = (fun i -> let k = int_of_n i in if k < n then Some a.(k) else None) }
-let readback fm fv = match fm.fm_feats with [] -> "-" | l -> String.concat "," (List.map (fun f -> string_of_int ((int_of_n (get_val f fv)) land 0xFFFF)) l)
+let readback_on face fm x = match fm.fm_feats with [] -> "-" | l -> String.concat "," (List.map (fun f -> string_of_int ((int_of_n (get_val_on face f x)) land 0xFFFF)) l)
+let face1 = n_of_int 1 and face2 = n_of_int 2
+let readback fm x = readback_on face1 fm x
 let () =
   try while true do
     let line = input_line stdin in
@@ -30,19 +32,26 @@ let () =
                Buffer.add_string buf (Printf.sprintf " OK nf=%d nvis=%d nl=%d F" (Array.length feats) nvis (List.length langs));
                Array.iter (fun f -> Buffer.add_string buf (Printf.sprintf " %x:%d:%d" (int_of_n f.f_id) (List.length f.f_settings)
                                                             (if (int_of_n f.f_flags) land 0x0800 <> 0 then 1 else 0))) feats;
-               let fv = ref fm.fm_defaults in
+               let fv = ref { fv_map = Some face1; fv_words = fm.fm_defaults } in
                Buffer.add_string buf (" D " ^ readback fm !fv);
                List.iter (fun op ->
                  match String.split_on_char ':' op with
                  | ["set"; fi; v] ->
                      let fi = int_of_string fi in
                      if fi >= Array.length feats then Buffer.add_string buf " S NA" else
-                     (match set_val feats.(fi) (n_of_int ((int_of_string v) land 0xFFFF)) !fv with
+                     (match set_val_on face1 feats.(fi) (n_of_int ((int_of_string v) land 0xFFFF)) !fv with
                       | Some fv' -> fv := fv'; Buffer.add_string buf (" S 1 " ^ readback fm !fv)
                       | None -> Buffer.add_string buf (" S 0 " ^ readback fm !fv))
+                 | ["xset"; fi; v] ->                                   (* the same feature of a second face over the same tables *)
+                     let fi = int_of_string fi in
+                     if fi >= Array.length feats then Buffer.add_string buf " X NA" else
+                     (match set_val_on face2 feats.(fi) (n_of_int ((int_of_string v) land 0xFFFF)) !fv with
+                      | Some fv' -> fv := fv'; Buffer.add_string buf (" X 1 " ^ readback fm !fv ^ " " ^ readback_on face2 fm !fv)
+                      | None -> Buffer.add_string buf (" X 0 " ^ readback fm !fv ^ " " ^ readback_on face2 fm !fv))
+                 | ["blank"] -> fv := blank; Buffer.add_string buf (" B " ^ readback fm !fv)
                  | ["clone"] -> Buffer.add_string buf (" C eq " ^ readback fm !fv)
                  | ["lang"; tag] ->
-                     fv := clone_for_lang fm langs (zeropad (n_of_int (int_of_string ("0x" ^ tag))));
+                     fv := { fv_map = Some face1; fv_words = clone_for_lang fm langs (zeropad (n_of_int (int_of_string ("0x" ^ tag)))) };
                      Buffer.add_string buf (" L " ^ readback fm !fv)
                  | "label" :: _ -> Buffer.add_string buf " N *"
                  | _ -> Buffer.add_string buf " ?") ops;
